@@ -61,20 +61,26 @@ func c04Merge(t c04Case, order []int) (Sexp, *fakeDocker) {
 		return L(A("err"), A(errClassOf(err))), fd
 	}
 	defer it.Close()
-	var out []Sexp
+	// records are kept until the merged stream has ended and read only then (as the engine consumes
+	// them): a record that aliases a reader's buffer and is overwritten by a later frame shows here
+	var kept []logstorage.Record
 	var r logstorage.Record
 	for it.Next(&r) {
-		var s, j int
-		if _, err := fmt.Sscanf(r.Body, "%d-%d", &s, &j); err != nil {
-			return L(A("err"), A("foreign-record")), fd
-		}
-		out = append(out, L(N(int64(r.Timestamp)), N(int64(s)), N(int64(j))))
-		if len(out) > 10000 {
+		kept = append(kept, r)
+		if len(kept) > 10000 {
 			return L(A("err"), A("runaway")), fd
 		}
 	}
 	if err := it.Err(); err != nil {
 		return L(A("err"), A(errClassOf(err))), fd
+	}
+	var out []Sexp
+	for _, k := range kept {
+		var s, j int
+		if _, err := fmt.Sscanf(k.Body, "%d-%d", &s, &j); err != nil {
+			return L(A("err"), A("foreign-record")), fd
+		}
+		out = append(out, L(N(int64(k.Timestamp)), N(int64(s)), N(int64(j))))
 	}
 	return LS(out), fd
 }
